@@ -127,8 +127,11 @@ Definition p_step (m : mon) (o : op) (x : out) : string * mon :=
      | SUnsorted, XKeyUnsorted => ""
      | SUnsorted, _ => "C05:platform-key-unsorted-accepted"
      | SOk _, XKeyUnsorted => "C05:platform-key-sorted-rejected"
-     | SOk _, XKeyOk i ps =>
-       if String.eqb i (ka_inst a) && plat_eqb ps (ka_props a) then "" else "C05:platform-key-roundtrip"
+     | SOk _, XKeyOk i ps js =>
+       if String.eqb i (ka_inst a) && plat_eqb ps (ka_props a) then
+         if negb (plain_props (ka_props a)) || String.eqb js (marshal_platform (ka_props a)) then ""
+         else "C05:platform-key-canonical-string"
+       else "C05:platform-key-roundtrip"
      | SOk _, _ => "C05:platform-key-sorted-rejected"
      end, m)
   | OKeyEq a b =>
